@@ -96,7 +96,7 @@ def edge_cases(draw):
 
 
 def make_router(b, hash_type):
-  settings = c05.FakeSettings(REPLICATION_FACTOR=1, DIVERSE_REPLICAS=False, ROUTER_HASH_TYPE=hash_type)
+  settings = c05.FakeSettings(REPLICATION_FACTOR=1, DIVERSE_REPLICAS=False, ROUTER_HASH_TYPE=c05.as_configured(hash_type))
   cls = b.routers.DatapointRouter.plugins.get('consistent-hashing')
   if cls is None:
     raise HarnessError('consistent-hashing router plugin is gone')
